@@ -680,10 +680,23 @@ let judge_c2 (input : string) (impl : string) (_model : string) : verdict =
           (match got, (if gid < List.length os then parse_outline (List.nth os gid) else None) with
            | GOk gl, Some ol ->
              let gc = List.map cmd_coords gl in
+             (* allsorts accumulates the current point in f32: the error of a coordinate depends on
+                the largest magnitude the path went through, not on the coordinate itself *)
+             let gmax = List.fold_left (fun a (_, l) -> List.fold_left (fun a v -> Float.max a (Float.abs (coord_to_float v))) a l) 0.0 gc in
+             let ftol = 0.015625 +. gmax /. 4096.0 in
              if List.length gc <> List.length ol
              || not (List.for_all2 (fun (k, l) (k2, l2) -> k = k2 && List.length l = List.length l2 &&
-                                                             List.for_all2 (fun a b -> Float.abs (coord_to_float a -. b) <= 0.015625 +. Float.abs b /. 4096.0) l l2) gc ol)
-             then add (Mismatch (Printf.sprintf "glyph %d: CFF2Outlines draws the instance differently from the model" gid))
+                                                             List.for_all2 (fun a b -> Float.abs (coord_to_float a -. b) <= ftol) l l2) gc ol)
+             then begin
+               let where = ref "" in
+               (try List.iteri (fun i ((k, l), (k2, l2)) ->
+                    if !where = "" then begin
+                      if k <> k2 || List.length l <> List.length l2 then where := Printf.sprintf "command %d: %c vs %c" i k k2
+                      else List.iter2 (fun a b -> if !where = "" && Float.abs (coord_to_float a -. b) > ftol then
+                                          where := Printf.sprintf "command %d: model %.6f, CFF2Outlines %.6f" i (coord_to_float a) b) l l2
+                    end) (List.combine gc ol) with Invalid_argument _ -> where := Printf.sprintf "%d vs %d commands" (List.length gc) (List.length ol));
+               add (Mismatch (Printf.sprintf "glyph %d: CFF2Outlines draws the instance differently from the model (%s)" gid !where))
+             end
            | GOk gl, None ->
              (* the outline builder refuses coordinates outside i16 (its bounding box) *)
              let fits = List.for_all (fun (_, l) -> List.for_all (fun v -> Float.abs (coord_to_float v) < 32767.0) l) (List.map cmd_coords gl) in
